@@ -1,6 +1,7 @@
 import Driver.Util
 import Driver.Ops.Label
 import EncodingRs.Model.Decoder
+import EncodingRs.Model.L1
 import EncodingRs.Model.Unicode
 /-!
 Driver operation `dec`: replays a whole history of `Decoder` calls made by the
@@ -9,7 +10,8 @@ harness against the model and checks that every call is *admissible*
 
   dec <ENC> <off|sniff|remove> <u8|u16> <raw|repl> <hex stream> <call>;<call>;…  => ok <encoding() at the end>
 
-  <call> = n=<src len>,c=<capacity>,l=<0|1>,r=<I|O|P|M<len>.<after>>,rd=<read>,w=<hex units>[,he=<0|1>]
+  <call> = n=<src len>,c=<capacity>,l=<0|1>,r=<I|O|P|M<len>.<after>>,rd=<read>,w=<hex units>[,he=<0|1>][,lc=<n|->]
+           (lc = latin1_byte_compatible_up_to(src) asked just before the call)
 
 Each call is made on `stream[consumed .. consumed+n]` where `consumed` is the sum
 of the `rd` of the earlier calls.  The model answers `ok <ENC>` or
@@ -44,6 +46,8 @@ structure CallRec where
   read : Nat
   units : List Nat
   hadErrors : Option Bool
+  /-- `latin1_byte_compatible_up_to(src)` asked before the call: `none` = not recorded -/
+  lc : Option (Option Nat)
 
 def parseKv (s : String) : Option (String × String) :=
   match s.splitOn "=" with
@@ -66,7 +70,11 @@ def parseCall (k : Sink) (s : String) : Option CallRec := do
     | some "1" => some true
     | some "0" => some false
     | _ => none
-  pure ⟨n, cap, l == "1", r, rd, units, he⟩
+  let lc ← match get "lc" with
+    | none => some none
+    | some "-" => some (some none)
+    | some v => (v.toNat?).map (fun x => some (some x))
+  pure ⟨n, cap, l == "1", r, rd, units, he, lc⟩
 
 def showRes : Res → String
   | .inputEmpty => "I"
@@ -141,12 +149,16 @@ partial def checkRepl {F : Fam} (k : Sink) (src : List Nat) (c : CallRec)
   tryAll [] (budgets1.flatMap fun b1 => (budgets2 m).map fun b2 => (b1, b2))
 
 def runDecHistory {F : Fam} (k : Sink) (repl : Bool) (nomIdent : String) (stream : List Nat)
-    (calls : List CallRec) (d0 : Decoder F) : String :=
+    (calls : List CallRec) (d0 : Decoder F) (l1f : Decoder F → List Nat → Option Nat) : String :=
   let rec go (i : Nat) (consumed : Nat) (d : Decoder F) : List CallRec → String
     | [] => s!"ok {curIdent nomIdent d.cur}"
     | c :: t =>
       let src := (stream.drop consumed).take c.n
       if src.length ≠ c.n then s!"call#{i}: source slice beyond the stream" else
+      let lcOk := match c.lc with
+        | none => true
+        | some v => l1f d src == v
+      if !lcOk then s!"call#{i}: latin1_byte_compatible_up_to: model={l1f d src}" else
       let r := if repl then checkRepl k src c d 0 [] false (src.length + 8) else checkRaw k d src c
       match r with
       | none => s!"call#{i}: not admissible (n={c.n} cap={c.cap} last={c.last} impl={c.res} read={c.read} units={c.units.length})"
@@ -174,7 +186,8 @@ def dec (op : String) (args : List String) : Option (Option String) :=
     let stream ← parseHex hexStream
     let calls ← if callsS == "." then some [] else (callsS.splitOn ";").mapM (parseCall k)
     let F := famOfVariant e.variant
-    pure (runDecHistory k repl e.ident stream calls (Decoder.new F (nominalOf e.variant) bomH))
+    pure (runDecHistory k repl e.ident stream calls (Decoder.new F (nominalOf e.variant) bomH)
+      (Decoder.l1 e.variant))
   | "dec", _ => some none
   | _, _ => none
 
